@@ -564,26 +564,60 @@ def norm_facts():
                 reserved=list(base.RESERVED_FIELDS))
 
 
-def reader_facts():
-    """CsvfileReader: newline='' file, Sniffer on the first 1024 characters, csv.reader with that dialect,
-    every header cell through normalize_fieldname, columns starting with '_' are not descriptor fields."""
+def _class_scope(cls, module):
+    """all function bodies of the class plus the module-level private functions they call (one level)"""
+    cdef = ast.parse(textwrap.dedent(inspect.getsource(cls))).body[0]
+    fns = [n for n in cdef.body if isinstance(n, ast.FunctionDef)]
+    mod = ast.parse(inspect.getsource(module))
+    modfns = {n.name: n for n in mod.body if isinstance(n, ast.FunctionDef)}
+    extra = []
+    for fn in fns:
+        for c in _calls(fn):
+            if isinstance(c.func, ast.Name) and c.func.id in modfns and modfns[c.func.id] not in extra:
+                extra.append(modfns[c.func.id])
+    return fns + extra
+
+
+def _ast_reader_facts():
+    """what the source of CsvfileReader says (any method of the class, module-level helpers one level): the newline
+    argument of open(), the size of the sample read for the dialect detection"""
     from flow.record.adapter import csvfile
-    init = _fn_ast(csvfile.CsvfileReader.__init__)
-    opens = [c for c in _calls(init) if isinstance(c.func, ast.Name) and c.func.id == "open"]
+    scope = _class_scope(csvfile.CsvfileReader, csvfile)
+    opens = [c for fn in scope for c in _calls(fn) if isinstance(c.func, ast.Name) and c.func.id == "open"]
     if len(opens) != 1:
-        raise Unsupported("CsvfileReader.__init__: expected one open() call")
+        raise Unsupported("CsvfileReader: expected one open() call")
     nl = _kw(opens[0], "newline")
-    if not (_const_str(nl) and nl.value == ""):
-        raise Unsupported("CsvfileReader.__init__: file is not opened with newline=''")
-    # the sample handed to the dialect guess: <fp>.read(<int>) somewhere in __init__ (how the guess is made is behaviour:
-    # the read-back leg of the check compares the records read with the file's own dialect)
-    reads = [c for c in _calls(init) if isinstance(c.func, ast.Attribute) and c.func.attr == "read" and len(c.args) == 1
+    if nl is None and len(opens[0].args) > 5:
+        nl = opens[0].args[5]
+    newline = ("set", nl.value) if (nl is not None and isinstance(nl, ast.Constant)) else ("set", None) if nl is None else None
+    reads = [c for fn in scope for c in _calls(fn) if isinstance(c.func, ast.Attribute) and c.func.attr == "read" and len(c.args) == 1
              and isinstance(c.args[0], ast.Constant) and isinstance(c.args[0].value, int)]
-    if len(reads) != 1:
-        raise Unsupported("CsvfileReader.__init__: sniff sample size not found")
-    if not any(isinstance(c.func, ast.Name) and c.func.id == "normalize_fieldname" for c in _calls(init)):
-        raise Unsupported("CsvfileReader.__init__: header cells are not normalised")
-    return dict(sample=int(reads[0].args[0].value))
+    if len(reads) != 1 or newline is None:
+        raise Unsupported("CsvfileReader: sample size / newline argument not recognised")
+    return dict(sample=int(reads[0].args[0].value), newline=newline)
+
+
+def reader_facts(notes):
+    """observed: files with a header of field names are read in the writer's dialect under normalised names, fields=
+    replaces the header, the file is opened with newline='', <sample> characters go to the dialect detection"""
+    obs = observe.observe_reader()
+    try:
+        src = _ast_reader_facts()
+    except Unsupported as e:
+        src = None
+        notes.append("CsvfileReader: source shape not recognised (%s); observed behaviour used" % " ".join(str(e).split())[:160])
+    for k in ("sample", "newline"):
+        if obs.get(k) is None:
+            if src is None:
+                raise Unsupported("CsvfileReader: %s neither observable (the module does not call open()/read(n) through its "
+                                  "own namespace) nor recognised in the source" % k)
+            obs[k] = src[k]
+            notes.append("CsvfileReader: %s not observable; read from the source" % k)
+        elif src is not None and src[k] != obs[k]:
+            raise Unsupported("CsvfileReader: the source says %s = %r but the reader behaves as %r" % (k, src[k], obs[k]))
+    if obs["newline"] != ("set", ""):
+        raise Unsupported("CsvfileReader: file is not opened with newline='' (%r)" % (obs["newline"],))
+    return obs
 
 
 def _cross_check(name, obs, recogniser, keys, notes):
@@ -603,32 +637,40 @@ def _cross_check(name, obs, recogniser, keys, notes):
             raise Unsupported("%s: the source says %s = %r but the writer behaves as %r" % (name, k, a, b))
 
 
-def _csv_newline_check(notes):
-    """newline='' of the CSV output file cannot be observed on this platform: read it from the source"""
+def _csv_newline_check(obs, notes):
+    """newline='' of the CSV output file: observed through a logging open() when the module calls open() through its own
+    namespace, cross-checked with / else read from the source"""
     from flow.record.adapter import csvfile
     cdef = ast.parse(textwrap.dedent(inspect.getsource(csvfile.CsvfileWriter))).body[0]
-    opens = []
+    src = None
     for c in _calls(cdef):
         if isinstance(c.func, ast.Name) and c.func.id == "open":
             mode = c.args[1] if len(c.args) > 1 else _kw(c, "mode")
             if _const_str(mode) and "w" in mode.value:
-                opens.append(c)
-    if not opens:
-        notes.append("CsvfileWriter: no open(path, 'w', ...) call recognised; newline='' not cross-checked")
-        return
-    for op in opens:
-        nl = _kw(op, "newline")
-        if nl is None and len(op.args) > 5:
-            nl = op.args[5]
-        if not (_const_str(nl) and nl.value == ""):
-            raise Unsupported("CsvfileWriter: the output file is not opened with newline='' (the csv module's line "
-                              "terminators would be translated)")
+                nl = _kw(c, "newline")
+                if nl is None and len(c.args) > 5:
+                    nl = c.args[5]
+                val = ("set", nl.value) if isinstance(nl, ast.Constant) else ("set", None) if nl is None else None
+                if src not in (None, val):
+                    raise Unsupported("CsvfileWriter: two open() calls with different newline arguments")
+                src = val
+    seen = obs.get("newline")
+    if seen is None and src is None:
+        raise Unsupported("CsvfileWriter: the newline argument of the output file is neither observable nor recognised in the source")
+    if seen is None:
+        notes.append("CsvfileWriter: newline argument not observable; read from the source")
+        seen = src
+    elif src is not None and src != seen:
+        raise Unsupported("CsvfileWriter: the source says newline=%r but the file is opened with %r" % (src, seen))
+    if seen != ("set", ""):
+        raise Unsupported("CsvfileWriter: the output file is not opened with newline='' (the csv module's line "
+                          "terminators would be translated)")
 
 
 def csv_facts(notes):
     obs = observe.observe_csv()
     _cross_check("CsvfileWriter", obs, _ast_csv_facts, ("default", "repl", "se"), notes)
-    _csv_newline_check(notes)
+    _csv_newline_check(obs, notes)
     return obs
 
 
@@ -650,8 +692,8 @@ def gen_text():
     ln = line_facts(notes)
     tx = text_facts(notes)
     nm = norm_facts()
-    rd = reader_facts()
-    rdo = observe.observe_reader()
+    rd = reader_facts(notes)
+    rdo = rd
     pairs = lambda tbl: ctlist("(%s, %s)" % (ctext(a), ctext(b)) for a, b in tbl)  # noqa: E731
     out = HEADER
     out += "From Coq Require Import List Bool NArith.\nImport ListNotations.\nFrom FR Require Import Csv.\nOpen Scope N_scope.\n\n"
